@@ -91,7 +91,7 @@ func TestVerifC13(t *testing.T) {
 			}
 		}},
 	}
-	entries := []string{"get", "put", "batch-shared-ctx", "batch-own-ctx-only-call", "batch-own-ctx-one-of-two", "scan", "scan-mid-region"}
+	entries := []string{"get", "put", "batch-shared-ctx", "batch-own-ctx-only-call", "batch-own-ctx-one-of-two", "batch-ctx-calls-have-their-own", "scan", "scan-mid-region"}
 	kinds := []string{"cancel", "deadline"}
 
 	for _, st := range states {
@@ -202,6 +202,14 @@ func TestVerifC13(t *testing.T) {
 						case "batch-shared-ctx":
 							p1, _ := hrpc.NewPut(ctx, []byte("t"), []byte("k1"), vals)
 							p2, _ := hrpc.NewPut(ctx, []byte("t"), []byte("k2"), vals)
+							res, ok := c.SendBatch(ctx, []hrpc.Call{p1, p2})
+							mu.Lock()
+							batchRes, batchOK = res, ok
+							mu.Unlock()
+						case "batch-ctx-calls-have-their-own":
+							// the batch context is the one that ends; the calls were built with another context that stays live
+							p1, _ := hrpc.NewPut(otherCtx, []byte("t"), []byte("k1"), vals)
+							p2, _ := hrpc.NewPut(context.Background(), []byte("t"), []byte("k2"), vals)
 							res, ok := c.SendBatch(ctx, []hrpc.Call{p1, p2})
 							mu.Lock()
 							batchRes, batchOK = res, ok
